@@ -66,6 +66,7 @@ class Tracer:
         self.hits = 0
         self.fired = False
         self.fired_at: Optional[str] = None
+        self.exc_obj: Optional[BaseException] = None
         self.sites: Dict[str, int] = {}
         self.detector_events = 0
         self.in_output = False
@@ -108,7 +109,8 @@ class Tracer:
                 if self.detector_events == self._k:
                     self.fired = True
                     self.fired_at = fn[len(self.root) :] + ":" + code.co_name
-                    raise _make_exc("TealerException")
+                    self.exc_obj = _make_exc("TealerException")
+                    raise self.exc_obj
             return None
         # exc_call / exc_line
         if self.fired:
@@ -119,7 +121,8 @@ class Tracer:
                 if mode == "exc_call":
                     self.fired = True
                     self.fired_at = fn[len(self.root) :] + ":" + code.co_name
-                    raise _make_exc(self._exc)
+                    self.exc_obj = _make_exc(self._exc)
+                    raise self.exc_obj
                 return self._line_tracer
         return None
 
@@ -134,8 +137,22 @@ class Tracer:
                     + frame.f_code.co_name
                     + f"@line{frame.f_lineno}"
                 )
-                raise _make_exc(self._exc)
+                self.exc_obj = _make_exc(self._exc)
+                raise self.exc_obj
         return self._line_tracer
+
+
+def caught_in(exc: Optional[BaseException], root: str) -> Optional[str]:
+    """Where an injected exception stopped propagating: the outermost frame its traceback
+    recorded is the frame whose handler caught it."""
+    if exc is None or exc.__traceback__ is None:
+        return None
+    code = exc.__traceback__.tb_frame.f_code
+    fn = code.co_filename
+    root = root.rstrip("/") + "/"
+    if fn.startswith(root):
+        return fn[len(root) :] + ":" + code.co_name
+    return "<harness>:" + code.co_name
 
 
 class IoShim:
